@@ -126,6 +126,17 @@ func NewLoaders(file Resource) ([]*Loader, error) {
 
 // dst is an optional storage which may be provided to reduce allocations.
 func (pr *Loader) findTableBuffer(s tableSection, dst []byte) ([]byte, error) {
+	if s.length != 0 {
+		// do not trust the directory to size the buffers : the last byte of the table must be in the file,
+		// and zlib does not expand data more than 1032 times
+		var last [1]byte
+		if _, err := pr.file.ReadAt(last[:], int64(s.offset)+int64(s.length)-1); err != nil {
+			return nil, fmt.Errorf("invalid table length %d at offset %d: %s", s.length, s.offset, err)
+		}
+		if s.length < s.zLength && uint64(s.zLength) > 1032*uint64(s.length)+1024 {
+			return nil, fmt.Errorf("invalid uncompressed table length %d (for %d bytes)", s.zLength, s.length)
+		}
+	}
 	if s.length != 0 && s.length < s.zLength {
 		zbuf := io.NewSectionReader(pr.file, int64(s.offset), int64(s.length))
 		r, err := zlib.NewReader(zbuf)
